@@ -88,6 +88,8 @@ GMODES = {
     'tandy': {1: (320, 200, 40), 2: (640, 200, 80), 3: (160, 200, 20), 4: (320, 200, 40),
               5: (320, 200, 40), 6: (640, 200, 80)},
 }
+# number of pages at 256k video memory (hint for plausible page numbers)
+NPAGES = {1: 8, 2: 8, 3: 8, 4: 8, 5: 4, 6: 4, 7: 32, 8: 16, 9: 8, 10: 8}
 DBCS_CODEPAGES = ['932', '936', '949', '950']
 SBCS_CODEPAGES = ['850', '866', '1258', 'koi8-r', '864']
 
@@ -238,6 +240,7 @@ class _Hint(object):
     def __init__(self, sess):
         self.adapter = sess['video']
         self.width = sess['text_width']
+        self.vmem = sess['video_memory']
         self.gm = None      # (w, h, cols) when in graphics mode
         self.mode = 0
         self.view = None    # extent for coordinates while a VIEW is (probably) set
@@ -293,13 +296,24 @@ def _screen_op(rng, hint, want_gfx=None, pages='any'):
     else:
         m = rng.choice([1, 2, 3, 7, 9, 10, 11, 13, 255])
     op = {'op': 'screen', 'm': m, 'cs': rng.choice([None, None, None, 0, 1]), 'ap': None, 'vp': None}
+    mm = hint.mode if m is None else m
+    np_ = NPAGES.get(mm, 4) * hint.vmem // 262144
+    if ad == 'hercules' and mm:
+        np_ = 2
+    elif ad == 'olivetti' and mm >= 3:
+        np_ = 1
+    np_ = max(1, min(np_, 8))
+
+    def page():
+        if rng.random() < 0.85:
+            return rng.choice([0, rng.randint(0, np_ - 1), rng.randint(0, np_ - 1)])
+        return rng.choice([1, 2, 3, 7, 8, np_])
     if pages == 'same':
         if rng.random() < 0.4:
-            p = rng.choice([0, 0, 1, 1, 2, 3, 7])
-            op['ap'] = op['vp'] = p
+            op['ap'] = op['vp'] = page()
     elif pages == 'explicit' or rng.random() < 0.6:
-        op['ap'] = rng.choice([0, 0, 0, 1, 1, 1, 2, 3, 3, 7, 8])
-        op['vp'] = rng.choice([0, 0, 0, 1, 1, 2, 3, 8, op['ap'], op['ap']])
+        op['ap'] = page()
+        op['vp'] = rng.choice([page(), op['ap']])
     if m is not None:
         hint.screen(m)
     return op
@@ -541,7 +555,7 @@ def gen(rng, tier, prop):
                 if rng.random() < 0.5:
                     ops.append(_screen_op(rng, hint, want_gfx=None if rng.random() < 0.3 else True, pages='explicit'))
                 else:
-                    ops.append({'op': 'screen', 'm': None, 'cs': None, 'ap': rng.choice([0, 1, 1, 2, 3]), 'vp': rng.choice([0, 0, 1, 2])})
+                    ops.append(dict(_screen_op(rng, hint, pages='explicit'), m=None, cs=None))
             elif r < 0.92:
                 ops.append(_print_op(rng, hint))
             elif r < 0.94:
@@ -909,8 +923,8 @@ def _body(run, case):
         if w.stats.get('max_video_backlog', 0) > 200:
             run.probe('backlog>200 (engine back-pressure loop ran)')
         run.probe('comparisons', c.compares)
-        if c.disp.anomalies:
-            run.probe('consumer-anomalies', len(c.disp.anomalies))
+        for a in c.disp.anomalies:
+            run.probe('consumer-anomaly: ' + a.split(':')[0])
         c.d.close()
 
 
@@ -993,7 +1007,9 @@ def _drain_and_compare(c, label):
         run.violate('C35', sig,
                     'first differing pixel y=%d x=%d (text cell %d,%d): get_pixels=%r display=%r; %d pixel rows differ; '
                     'cell last touched by %s; mode %r %s' % (y, x, tr + 1, tc + 1, ev, dv, ndiff, tag, disp.mode, where))
-        disp.resync(pixel_rows=px)
+        resync_px = px
+    else:
+        resync_px = None
     tx = c.d.s.get_chars(as_type=type(u''))
     rt = disp.text_rows()
     if tx != rt:
@@ -1006,7 +1022,9 @@ def _drain_and_compare(c, label):
             run.violate('C35', 'text:' + tag,
                         'first differing cell row=%d col=%d: get_chars=%r display=%r; cell last touched by %s; mode %r %s' % (
                             y + 1, x + 1, ev, dv, tag, disp.mode, where))
-        disp.resync(text_rows=tx)
+        resync_tx = tx
+    else:
+        resync_tx = None
     # the default (bytes) view of get_chars against the displayed characters, where decidable:
     # a displayed printable-ASCII character must be that byte; under codepage 437 a printable-ASCII
     # byte must be displayed as that character (other codepages substitute glyphs for some ASCII
@@ -1030,6 +1048,9 @@ def _drain_and_compare(c, label):
                 break
         if done:
             break
+    # after a reported mismatch bring the display back in line, so that later ones show separately
+    if resync_px is not None or resync_tx is not None:
+        disp.resync(pixel_rows=resync_px, text_rows=resync_tx)
     if disp.cursor_visible and disp.cursor_pos is not None and disp.mode is not None:
         r, col = disp.cursor_pos
         if not (1 <= r <= disp.mode[2] and 1 <= col <= disp.mode[3]):
